@@ -480,7 +480,9 @@ fn check_gallery(cfg: &Cfg, before: Option<&TrackView>, after: &TrackView, det: 
             st.own_area_checks_occluded += 1;
         }
         match newest.own_area {
-            Some(stored) => ensure!((stored as f64 - oa).abs() <= 2e-3, "c13-own-area-value", "op {}: track {}: the newest observation is stored with own-area share {} but {} of the detection is uncovered", k, after.id, stored, oa),
+            // (the library divides by area + EPS: for boxes in frame-relative coordinates the
+            // stored share is lower by up to EPS / area - the library's own notion of the share)
+            Some(stored) => ensure!((stored as f64 - oa).abs() <= 2e-3 + 2.0 * similari::EPS as f64 / det.b.rbox().area(), "c13-own-area-value", "op {}: track {}: the newest observation is stored with own-area share {} but {} of the detection is uncovered", k, after.id, stored, oa),
             None => return Err(Fail::new("c13-own-area-lost", format!("op {}: track {}: the newest observation carries no own-area share although an own-area threshold is configured", k, after.id))),
         }
     }
@@ -517,7 +519,7 @@ fn check_gallery(cfg: &Cfg, before: Option<&TrackView>, after: &TrackView, det: 
         collect &= area >= cfg.vis.min_area as f64;
     }
     if let Some(oa) = own_area {
-        if (oa - cfg.vis.own_collect as f64).abs() <= 2e-3 {
+        if (oa - cfg.vis.own_collect as f64).abs() <= 2e-3 + 2.0 * similari::EPS as f64 / area {
             band = true;
         }
         collect &= oa >= cfg.vis.own_collect as f64;
